@@ -290,10 +290,14 @@ pub fn run(ctx: &Ctx) -> Report {
     run_generated(&mut sec, ctx.seed ^ 20, ctx.cases(100_000, 1_500_000), ctx.workers, || c01::strategy(gen::ConfigMenu::all_transports(), 6), check, sig);
     run_generated(&mut sec, ctx.seed ^ 21, ctx.cases(100_000, 1_500_000), ctx.workers, || c02::strategy(gen::ConfigMenu::all_transports(), 4), check, sig);
     rep.sections.push(sec);
+    super::history_section(&mut rep, ctx, ctx.seed ^ 0x6a, ctx.cases(60_000, 1_000_000), || c01::strategy(gen::ConfigMenu::all_transports(), 5), check, sig);
     rep
 }
 
 pub fn replay(section: &str, case: &Value) -> Result<(), String> {
+    if section.starts_with("after-history") {
+        return super::replay_history(case, check);
+    }
     let c = de::<ProgCase>(case)?;
     if section.starts_with("giant-fills") || c.cfg.w as u64 * c.cfg.h as u64 > (1 << 26) {
         return check_giant(&c, &mut CaseInfo::default());
